@@ -1,0 +1,18 @@
+//go:build verif
+
+package sfnt
+
+// Hooks for /verif (property C12): thin wrappers exporting the unexported table builders of
+// write.go so that their derived fields can be compared with the Lean models.  No behaviour.
+
+// VerifMakeOS2 returns the OS/2 table Write would emit.
+func (f *Font) VerifMakeOS2() []byte { return f.makeOS2() }
+
+// VerifMakeHead returns the head table Write would emit.
+func (f *Font) VerifMakeHead(locaFormat int16) []byte { return f.makeHead(locaFormat) }
+
+// VerifMakePost returns the post table Write would emit.
+func (f *Font) VerifMakePost() []byte { return f.makePost() }
+
+// VerifMakeHmtx returns the hhea and hmtx tables Write would emit.
+func (f *Font) VerifMakeHmtx() ([]byte, []byte) { return f.makeHmtx() }
